@@ -4,6 +4,7 @@ CONSTANTS
   RuleIds = {"r1"}
   Versions = {"2.0"}
   ModeOf <- MCModeOf
+  RulesKeyedOnIdOnly = FALSE
   IdsIdentifyContent = TRUE
   InitScenarios = {"fresh", "haskey", "unreadable", "rotated"}
   InitDocs <- DocsOne
